@@ -19,6 +19,20 @@ impl Scratch {
         fs::create_dir_all(&p).unwrap();
         Scratch(p)
     }
+    /// a scratch directory on another filesystem than the scratch root (tmpfs at /dev/shm), if there is one
+    pub fn other_mount(tag: &str) -> Option<Scratch> {
+        use std::os::unix::fs::MetadataExt;
+        use std::sync::atomic::{AtomicUsize, Ordering};
+        static N: AtomicUsize = AtomicUsize::new(0);
+        let shm = Path::new("/dev/shm");
+        if fs::metadata(shm).ok()?.dev() == fs::metadata(scratch_root()).ok()?.dev() {
+            return None;
+        }
+        let p = shm.join(format!("lv_{}_{}_{}", tag, std::process::id(), N.fetch_add(1, Ordering::Relaxed)));
+        let _ = fs::remove_dir_all(&p);
+        fs::create_dir_all(&p).ok()?;
+        Some(Scratch(p))
+    }
     pub fn path(&self) -> &Path {
         &self.0
     }
